@@ -119,6 +119,7 @@ type Machine struct {
 	expectPanic bool
 	notes       []string
 	reached     map[string]bool
+	violSeen    map[string]int
 	lastPanic   string
 }
 
@@ -349,6 +350,13 @@ func (m *Machine) model(extra *Term) ([]NondetVal, bool) {
 }
 
 func (m *Machine) violate(kind, label string, extra *Term) {
+	key := kind + "|" + label
+	m.violSeen[key]++
+	if m.violSeen[key] > 3 {
+		// already witnessed with models; only count further occurrences
+		m.violations = append(m.violations, Violation{Kind: kind, Label: label, Site: m.site(), Decisions: append([]int(nil), m.trace...), Extra: map[string]string{"dup": "1"}})
+		return
+	}
 	nd, ok := m.model(extra)
 	if !ok {
 		m.notes = append(m.notes, "violation without model: "+label)
